@@ -443,8 +443,49 @@ def plant_phrases(rng, docs, keys, vocab):
     return qs
 
 
+def plant_weak_optional(rng, docs, keys, vocab):
+    """Top-N pruning of an optional clause (field "t"): one strong word whose frequency varies from
+    document to document (1..9 occurrences) and two or three weak words that occur at most once; the
+    queries make the strong word the required / dominant clause and a *compound* of the weak words the
+    optional one (AndMaybe written directly, the Or that UnionMatcher.replace turns into an AndMaybe,
+    under a boost wrapper, inside And): once the heap of a limit=k search is full the k-th best score
+    exceeds what the optional compound can reach, and replace() may prune inside it - only where that
+    cannot change a returned hit's score."""
+    if len(vocab) < 4:
+        return []
+    strong, w1, w2, w3 = rng.sample(vocab, 4)
+    rest = [w for w in vocab if w not in (strong, w1, w2, w3)] or [w3]
+    for k in keys:
+        if rng.random() < 0.15:
+            continue
+        words = [strong] * rng.choice([0, 1, 1, 2, 3, 4, 5, 6, 7, 8, 9])
+        for w, p in ((w1, 0.5), (w2, 0.4), (w3, 0.3)):
+            if rng.random() < p:
+                words.append(w)
+        if rng.random() < 0.5:
+            words.append(rng.choice(rest))
+        rng.shuffle(words)
+        docs[k]["t"] = [[w, i, 1.0] for i, w in enumerate(words)]
+
+    def t(w, b=1.0):
+        return ["term", "t", w, b]
+    weak = rng.choice([["or", [t(w1), t(w2)], 1.0], ["or", [t(w1), t(w2), t(w3)], 1.0],
+                       ["and", [t(w1), t(w2)], 1.0], ["or", [t(w1, 0.5), t(w2, 0.25)], 1.0],
+                       ["or", [t(w1), t(w2)], 0.5], ["dismax", [t(w1), t(w2)], 1.0]])
+    sb = rng.choice([1.0, 1.0, 2.0, 4.0])
+    qs = [["andmaybe", t(strong, sb), weak],
+          ["or", [t(strong, sb), weak], 1.0],
+          ["andmaybe", t(strong), ["or", [t(w2), t(w3)], 1.0]],
+          ["andmaybe", ["and", [t(strong, sb), ["every", None, 1.0]], 1.0], weak]]
+    extra = rng.choice([["and", [["andmaybe", t(strong, sb), weak], ["every", "t", 1.0]], 1.0],
+                        ["andmaybe", ["andmaybe", t(strong, sb), weak], t(w3)],
+                        ["or", [["or", [t(strong, sb), t(w1)], 1.0], ["or", [t(w2), t(w3)], 1.0]], 1.0],
+                        ["andnot", ["andmaybe", t(strong, sb), weak], t(rng.choice(rest))]])
+    return qs + [extra]
+
+
 def gen_case(rng, ndocs=None, nq=8, maxdepth=5, longdocs=False, nseg=None, nodeletes=False, vocab_n=None,
-             sparse_or=0, plant=0.0):
+             sparse_or=0, plant=0.0, weakopt=False, nomerge=False, noprefix=0):
     spec = gen_schema(rng)
     # small vocabularies give dense posting lists, large ones sparse lists (cursors that skip far)
     vocab = rng.sample(WORDS, vocab_n or rng.choice([4, 6, 8, 10, 12, 12, 16, 24, 36]))
@@ -462,6 +503,8 @@ def gen_case(rng, ndocs=None, nq=8, maxdepth=5, longdocs=False, nseg=None, nodel
     hist = gen_history(rng, keys, nseg=nseg)
     if nodeletes:
         hist = [dict(c, **{"del": []}) for c in hist if c["add"]]
+    if nomerge:
+        hist = [dict(c, merge=False, optimize=False) for c in hist]
     planted = []
     if plant and rng.random() < plant:
         planted = plant_phrases(rng, docs, keys, vocab)
@@ -478,6 +521,26 @@ def gen_case(rng, ndocs=None, nq=8, maxdepth=5, longdocs=False, nseg=None, nodel
             queries.append(["not", ph])
         else:
             queries.append([k, ph, qg.tree(1)] if rng.random() < 0.5 else [k, qg.tree(1), ph])
+    if weakopt:
+        queries = queries[:max(1, nq - 5)] + plant_weak_optional(rng, docs, keys, vocab)
+    for _ in range(noprefix):
+        # lexicon expansions without a literal prefix (the whole lexicon of every segment is scanned),
+        # over segments whose lexicons differ; bare and as a clause
+        w = qg.word()
+        pat = rng.choice(["*" + w[1:], "?" + w[1:], "*" + w[-1:], "[abcd]*", "?*", "*" + w[len(w) // 2:] + "*",
+                          "[!a]" + w[1:] + "*"])
+        wild = ["wild", rng.choice(qg.wordf), pat, qg.boost(), rng.random() < 0.7]
+        rex = ["regex", rng.choice(qg.wordf), rng.choice([".*" + w[-1:], "." + w[1:], "(a|b|c|d).*", "[a-d].?", ".+",
+                                                         ".?" + w[-1:] + ".*", "(" + w + "|.b)"]),
+               qg.boost(), rng.random() < 0.7]
+        queries += [wild, rex]
+        k = rng.choice(["and", "or", "andnot", "not"])
+        if k in ("and", "or"):
+            queries.append([k, [rng.choice([wild, rex]), qg.tree(1)], qg.boost()])
+        elif k == "not":
+            queries.append(["not", rng.choice([wild, rex])])
+        else:
+            queries.append(["andnot", qg.sparse_leaf(), rng.choice([wild, rex])])
     for _ in range(sparse_or):
         # three or more sparse clauses: the array union (scored, needs_current=False) has to cross
         # empty stretches and, beyond 2048 documents, part boundaries
@@ -514,14 +577,16 @@ def private_tmp(scratch):
     _random.seed(os.urandom(16))
 
 
-def build_index(case, storage=None):
+def build_index(case, storage=None, ix=None, commits=None):
+    """the whole history on a new index, or (ix given) the commits `commits` on an existing one"""
     from whoosh.filedb.filestore import RamStorage
     from whoosh.codec.whoosh3 import W3Codec
     from whoosh import query as Q
-    st = storage or RamStorage()
     sspec = case["schema"]
-    ix = st.create_index(make_schema(sspec))
-    for c in case["history"]:
+    if ix is None:
+        st = storage or RamStorage()
+        ix = st.create_index(make_schema(sspec))
+    for c in (case["history"] if commits is None else commits):
         kw = {}
         if c.get("blocklimit"):
             kw["codec"] = W3Codec(blocklimit=c["blocklimit"])
@@ -973,7 +1038,32 @@ def run_paths(s, wq, limits=(1, 2, 3, 10), paths=None):
     guard("sortedby", lambda: unscored(limit=None, sortedby="i"))
     guard("docs_for_query", lambda: {"docs": sorted(s.docs_for_query(wq))})
     guard("q.docs", lambda: {"docs": sorted(wq.docs(s))})
+    guard("q.matcher:skip", lambda: skip_top(s, wq))
     return out
+
+
+SKIP_STRIDES = ((1, 2, 3, 5, 2, 8, 1, 13), (2, 1, 4, 1, 1, 6, 3, 21), (3, 7, 1, 2, 11, 1, 5, 2))
+
+
+def skip_top(s, wq):
+    """The matcher Query.docs(searcher) reads - Query.matcher on the TOP searcher (term leaves are
+    MultiMatchers over the segments' posting lists on a multi-segment index) - moved with skip_to()
+    only: from id() to id() + stride for three stride cycles.  Observation: every (target, id reached
+    or None); the skip_to contract makes that the first answer >= target."""
+    skips, docs = [], set()
+    for strides in SKIP_STRIDES:
+        m = wq.matcher(s, s.context())
+        n = 0
+        while m.is_active():
+            cur = m.id()
+            docs.add(cur)
+            target = cur + strides[n % len(strides)]
+            m.skip_to(target)
+            skips.append([target, m.id() if m.is_active() else None])
+            n += 1
+            if n > 100000:
+                raise RuntimeError("matcher does not terminate")
+    return {"skips": skips, "visited": sorted(docs)}
 
 
 def step_matcher(m):
@@ -1105,6 +1195,8 @@ def path_class(path):
         return "exhaustive"
     if path.startswith("limit="):
         return "limit=k"
+    if path.startswith("q.matcher"):
+        return "q.matcher"
     return path
 
 
@@ -1193,32 +1285,58 @@ class CaseRun(object):
         expdocs = [d for d, _ in exp]
         if "exc" in obs:
             return {"kind": "exc", "obs": obs["exc"]}
+        if "skips" in obs:
+            import bisect
+            if expdocs and (not obs["visited"] or obs["visited"][0] != expdocs[0]):
+                return {"kind": "skip", "obs": ["first", obs["visited"][:1]]}
+            if not expdocs and obs["visited"]:
+                return {"kind": "skip", "obs": ["first", obs["visited"][:1]]}
+            bad = []
+            for target, got in obs["skips"]:
+                i = bisect.bisect_left(expdocs, target)
+                want = expdocs[i] if i < len(expdocs) else None
+                if got != want:
+                    bad.append([target, got, want])
+            if bad:
+                return {"kind": "skip", "obs": bad[:6]}
+            return None
         if path_class(path) == "limit=k":
             k = int(path.split("=")[1])
             if not set(obs["docs"]) <= set(expdocs) or len(obs["docs"]) != min(k, len(expdocs)):
                 return {"kind": "docs", "obs": obs["docs"]}
             if obs["len"] != len(expdocs):
                 return {"kind": "len", "obs": obs["len"]}
+            if scores and "scores" in obs:
+                # the score of a hit does not depend on the collector: a hit of a top-k search carries
+                # scoreOf of its document, as under limit=None
+                bad = self.bad_scores(exp, obs)
+                if bad:
+                    return {"kind": "score", "obs": bad}
             return None
         if obs["docs"] != expdocs:
             return {"kind": "docs", "obs": obs["docs"]}
         if "len" in obs and obs["len"] != len(expdocs):
             return {"kind": "len", "obs": obs["len"]}
         if scores and "scores" in obs:
-            em = dict(exp)
-            bad = {}
-            for d, sc in obs["scores"].items():
-                o = Fraction(sc[0], sc[1])
-                e = em[int(d)]
-                if self.mode == "freq":
-                    ok = o == e
-                else:
-                    ok = abs(o - e) <= Fraction(1, 10**9) * max(1, abs(e))
-                if not ok:
-                    bad[int(d)] = [str(o), str(e)]
+            bad = self.bad_scores(exp, obs)
             if bad:
                 return {"kind": "score", "obs": bad}
         return None
+
+    def bad_scores(self, exp, obs):
+        from fractions import Fraction
+        em = dict(exp)
+        bad = {}
+        for d, sc in obs["scores"].items():
+            o = Fraction(sc[0], sc[1])
+            e = em[int(d)]
+            if self.mode == "freq":
+                ok = o == e
+            else:
+                ok = abs(o - e) <= Fraction(1, 10**9) * max(1, abs(e))
+            if not ok:
+                bad[int(d)] = [str(o), str(e)]
+        return bad
 
     def check_query(self, s, q, paths, scores, limits=(1, 3, 10), exp=None):
         """-> (expected hits, {path: failure})  or None when unmodelled"""
@@ -1307,7 +1425,7 @@ class CaseRun(object):
         sig = self.blame_empty_term(q, path, fail)
         if sig:
             return sig
-        if path_class(path) == "q.docs" and fail["kind"] == "docs" and len(self.layout) > 1:
+        if path_class(path) in ("q.docs", "q.matcher") and fail["kind"] in ("docs", "skip") and len(self.layout) > 1:
             fz = [n for n in self.nodes(q) if n[0] == "fuzzy"]
             if fz and any(self.fuzzy_differs_on_top_reader(s, n) for n in fz):
                 # ... and the query itself is right on the per-segment path
@@ -1404,7 +1522,8 @@ class CaseRun(object):
                                  maxdepth=self.opts.get("maxdepth", 5), longdocs=self.opts.get("longdocs", False),
                                  nseg=self.opts.get("nseg"), nodeletes=self.opts.get("nodeletes", False),
                                  vocab_n=self.opts.get("vocab_n"), sparse_or=self.opts.get("sparse_or", 0),
-                                 plant=self.opts.get("plant", 0.0))
+                                 plant=self.opts.get("plant", 0.0), weakopt=self.opts.get("weakopt", False),
+                                 nomerge=self.opts.get("nomerge", False), noprefix=self.opts.get("noprefix", 0))
         case = self.case
         if self.opts.get("queries") is not None:
             case = dict(case, queries=self.opts["queries"])
@@ -1415,17 +1534,36 @@ class CaseRun(object):
 
         def stat(k, n=1):
             st[k] = st.get(k, 0) + n
+        wspec = self.opts.get("weighting") or ("freq",)
+        weighting = make_weighting(wspec)
+        hist = case["history"]
+        # history "refresh": a searcher is opened after the first commits and answers every query
+        # (scored, so that its statistics caches are warm); then the remaining commits change the
+        # index and the searcher under test is old.refresh() instead of a new ix.searcher()
+        cut = 0
+        if self.opts.get("refresh") and len(hist) > 1:
+            cut = max(1, len(hist) - random.Random(self.seed + ":refresh").choice([1, 1, 2]))
+        old = None
         try:
-            ix = build_index(case)
+            ix = build_index(case, commits=hist[:cut] if cut else None)
+            if cut:
+                old = ix.searcher(weighting=weighting)
+                for q in case["queries"]:
+                    try:
+                        with_watchdog(lambda: [h.score for h in old.search(q_to_whoosh(case, q), limit=None)], 5.0)
+                    except Exception:  # noqa   (the refreshed searcher is the one under test)
+                        pass
+                build_index(case, ix=ix, commits=hist[cut:])
+                stat("history:refresh")
         except Exception as e:  # noqa
             res["failures"].append({"sig": "build:raises:" + exc_sig(e), "q": None, "path": "build",
                                     "exp": "index builds", "obs": exc_sig(e)})
             return res
         self.enc = Enc(case["schema"])
-        wspec = self.opts.get("weighting") or ("freq",)
-        weighting = make_weighting(wspec)
         scores = self.opts.get("scores", False)
-        with ix.searcher(weighting=weighting) as s:
+        with (old.refresh() if old is not None else ix.searcher(weighting=weighting)) as s:
+            if old is not None:
+                stat("history:refresh:new-searcher" if s is not old else "history:refresh:same-searcher")
             self.layout = read_layout(s)
             tables = None
             if self.mode == "lean":
@@ -1528,6 +1666,8 @@ class CaseRun(object):
     def correspondence(self, s, modelled, res, stat):
         from fractions import Fraction
         scores = self.opts.get("scores", False)
+        if self.opts.get("cursor", True):
+            self.top_stream(s, modelled, res, stat)
         for nc in self.opts.get("corr_nc", (0, 1)):
             ctx = s.context(needs_current=bool(nc))
             if self.opts.get("cursor", True):
@@ -1651,7 +1791,76 @@ def _cursor_stream(self, s, modelled, nc, ctx, res, stat):
                                             "obs": fail["obs"], "layout": [[len(k), d] for k, d in self.layout]})
 
 
+def _top_stream(self, s, modelled, res, stat):
+    """model <-> implementation on the TOP searcher (C01.term_top): the cursor `WM.Compile.topTerm` builds
+    for a term - `MultiMatcher` over the segments' posting readers with their document offsets, under the
+    boost wrapper - is stepped by the driver with a generated next / skip_to / replace program, the real
+    `Term.matcher(top searcher, context)` with the same program; what id()/score() read before each
+    call must agree.  Terms = the distinct term leaves of the case's queries (at most 10)."""
+    import random
+    from fractions import Fraction
+    from vcheck import parse_sexp
+    scores = self.opts.get("scores", False)
+    terms, seen = [], set()
+    for q, _ in modelled:
+        for n in self.nodes(q):
+            if n[0] == "term" and json_dumps(n) not in seen:
+                seen.add(json_dumps(n))
+                lq = self.lean(n)
+                if lq is not None:
+                    terms.append((n, lq))
+    terms = terms[:10]
+    if not terms:
+        return
+    rng = random.Random("%s:topprog" % self.seed)
+    prog = gen_program(rng)
+    if not any(isinstance(o, tuple) for o in prog):
+        prog.append(("s", rng.choice([2, 3, 5, 8])))
+    out = self.ask1("c01 topcursor %s %s (%s) %s" % (self.modestr, self.idx, " ".join(l for _, l in terms),
+                                                     program_sexp(prog)))
+    if out == "bad-op":
+        raise RuntimeError("driver rejected topcursor request (seed %s)" % self.seed)
+    ctx = s.context()
+    for (q, _), tr in zip(terms, parse_sexp(out)[0]):
+        if tr == "notimpl":
+            continue
+        res["ncases"] += 1
+        stat("top:term:segments=%d" % min(len(self.layout), 3))
+        fail = None
+        if tr and tr[0] == "err":
+            fail = {"kind": "model-raises", "obs": "model: " + str(tr[1])}
+            mtr = []
+        else:
+            mtr = [(int(h[0]), parse_rat(h[1])) for h in tr]
+            wq = q_to_whoosh(self.case, q)
+            try:
+                real = with_watchdog(lambda: step_program(wq.matcher(s, ctx), prog), 30.0)
+            except Exception as e:  # noqa
+                real = None
+                fail = {"kind": "exc", "obs": exc_sig(e)}
+            if real is not None:
+                if [d for d, _ in real] != [d for d, _ in mtr]:
+                    fail = {"kind": "docs", "obs": [d for d, _ in real][:60]}
+                elif scores:
+                    bad = {}
+                    for (d, sc), (_, e) in zip(real, mtr):
+                        o = Fraction(*float(sc).as_integer_ratio())
+                        ok = (o == e) if self.mode == "freq" else abs(o - e) <= Fraction(1, 10**9) * max(1, abs(e))
+                        if not ok:
+                            bad[d] = [str(o), str(e)]
+                    if bad:
+                        fail = {"kind": "score", "obs": bad}
+        if fail:
+            sig = "matcher-program:raises:%s" % fail["obs"] if fail["kind"] == "exc" else \
+                "matcher:wrong-%s:top-term" % fail["kind"]
+            res["failures"].append({"sig": sig, "q": q, "corr": True,
+                                    "path": "matcher:top:prog=%s" % program_sexp(prog), "kind": fail["kind"],
+                                    "exp": [[d, str(sc)] for d, sc in mtr][:40], "obs": fail["obs"],
+                                    "layout": [[len(k), d] for k, d in self.layout]})
+
+
 CaseRun.cursor_stream = _cursor_stream
+CaseRun.top_stream = _top_stream
 
 
 def work(arg):
